@@ -121,6 +121,8 @@ def particle_swarm(
     best_solution = positions[best_idx][:]
     best_obj = fitness[best_idx]
 
+    iteration = 0  # stays 0 when max_iter is 0 (the loop body never runs)
+
     for iteration in range(1, max_iter + 1):
         # Compute current inertia (with optional decay)
         if inertia_decay is not None:
